@@ -7,6 +7,7 @@ import (
 	"os"
 	"sort"
 	"strings"
+	"sync/atomic"
 	"time"
 )
 
@@ -20,7 +21,31 @@ func main() { runMain(os.Args[1:]) }
 // bubble, when set (test binary), runs a function inside a testing/synctest bubble
 var bubble func(f func())
 
+// progress is bumped after every executed op; a watchdog outside any synctest
+// bubble aborts the run when the implementation under test hangs or livelocks.
+var progress atomic.Int64
+
+func startWatchdog() {
+	go func() {
+		last, idle := int64(-1), 0
+		for {
+			time.Sleep(time.Second)
+			cur := progress.Load()
+			if cur == last {
+				idle++
+			} else {
+				last, idle = cur, 0
+			}
+			if idle >= 45 {
+				fmt.Fprintln(os.Stderr, "harness: no progress for 45s (hang or livelock in the code under test); aborting")
+				os.Exit(3)
+			}
+		}
+	}()
+}
+
 func runMain(args []string) {
+	startWatchdog()
 	if len(args) < 1 {
 		fmt.Fprintln(os.Stderr, "usage: harness <suite> [flags]")
 		os.Exit(2)
@@ -120,6 +145,7 @@ func runCase1(o *Out, def SuiteDef, c genCase) {
 	for _, op := range c.ops {
 		o.Op("%s", op)
 		obs := safeDo(o, ex, strings.Fields(op))
+		progress.Add(1)
 		o.Obs("%s", obs)
 	}
 }
